@@ -8,4 +8,5 @@ Extraction "Extract/m_notes.ml"
   NotesTree.git_lookup NotesTree.unique_keysb NotesTree.layout_le1 NotesTree.long_keys
   NotesTree.Known_C05_fanout
   NoteOk.build_file_attestation NoteOk.to_authorship_log NoteOk.upsert NoteOk.try_remap
-  NoteOk.parse_batch_check_blob_oid NoteOk.note_ok.
+  NoteOk.parse_batch_check_blob_oid NoteOk.note_ok NoteOk.merge_favoring_first
+  GenNotes.gn_merge_skips_absent.
